@@ -13,7 +13,7 @@ namespace sim
 {
   enum Strategy { S_RANDOM = 0, S_BURST = 1, S_RR = 2, S_PCT = 3, S_STARVE = 4, S_SCRIPT = 5, S_SEQ = 6 };
 
-  enum Site { SITE_SPAWN = 100, SITE_JOIN = 101, SITE_EXIT = 102, SITE_OP = 103, SITE_IO = 104 };
+  enum Site { SITE_SPAWN = 100, SITE_JOIN = 101, SITE_EXIT = 102, SITE_OP = 103, SITE_IO = 104, SITE_PREEMPT = 105 };
 
   struct SchedParams
   {
@@ -25,6 +25,9 @@ namespace sim
     int pct_k = 2000;    // assumed run length for PCT
     int victim = 1;      // task starved by S_STARVE
     uint32_t step_cap = 200000;
+    // forced decision points inside the code under test (only in builds whose library is compiled with
+    // -fsanitize-coverage=trace-pc-guard): one about every `preempt` control-flow edges, 0 = none
+    uint32_t preempt = 0;
     const uint32_t *script = nullptr; // pairs (step, task) for S_SCRIPT
     size_t script_n = 0;              // number of pairs
   };
@@ -43,6 +46,8 @@ namespace sim
     uint32_t n_dev = 0;         // deviations from "continue current task"
     const uint32_t *dev = nullptr; // pairs (step, task)
     uint32_t site_count[8] = {0,0,0,0,0,0,0,0}; // library yield sites 0..7
+    uint32_t preemptions = 0;   // forced decision points taken inside the code under test
+    uint64_t edges = 0;         // control-flow edges of the code under test executed while the scheduler was active
   };
 
   void sched_begin(const SchedParams &p);
